@@ -19,7 +19,8 @@ Inductive item :=
 | IIn (f : bstr)                          (* input file: first positional argument / "inputFile" *)
 | IOut (f : bstr)                         (* output file: second positional argument / "outputFile" *)
 | IEmpty                                  (* --empty / "empty": "" *)
-| IReplace.                               (* --replace-input / "replaceInput": "" *)
+| IReplace                                (* --replace-input / "replaceInput": "" *)
+| IGlobal (l : list (aentry * bstr)).     (* --global <options of the global table> -- / "global": { ... } *)
 
 (* ---- third column: the Config call an option stands for; None = the value is not acceptable for this option *)
 Definition opt_denote (e : aentry) (v : bstr) : option cfg_call :=
@@ -48,6 +49,16 @@ Fixpoint denote_vals (e : aentry) (vs : list bstr) : list cfg_call * bool :=
               end
   end.
 
+(* the options of a nested table, in the order given *)
+Fixpoint denote_subs (l : list (aentry * bstr)) : list cfg_call * bool :=
+  match l with
+  | [] => ([], true)
+  | (e, v) :: r => match opt_denote e v with
+                   | None => ([], false)
+                   | Some c => let (cs, ok) := denote_subs r in (c :: cs, ok)
+                   end
+  end.
+
 Definition denote_item (it : item) : list cfg_call * bool :=
   match it with
   | IOpt e v => match opt_denote e v with Some c => ([c], true) | None => ([], false) end
@@ -56,6 +67,8 @@ Definition denote_item (it : item) : list cfg_call * bool :=
   | IOut f => ([CCall B"c_main" B"outputFile" [f]], true)
   | IEmpty => ([CCall B"c_main" B"emptyInput" []], true)
   | IReplace => ([CCall B"c_main" B"replaceInput" []], true)
+  | IGlobal l => let (cs, ok) := denote_subs l in
+                 (CCall B"c_main" B"global" [] :: cs ++ (if ok then [CCall B"c_global" B"endGlobal" []] else []), ok)
   end.
 
 Fixpoint denote_items (j : list item) : list cfg_call * bool :=
@@ -86,6 +99,7 @@ Definition argv_of_item (it : item) : list bstr :=
   | IOut f => [f]
   | IEmpty => [B"--empty"]
   | IReplace => [B"--replace-input"]
+  | IGlobal l => B"--global" :: map (fun p => word_of (fst p) (snd p)) l ++ [B"--"]
   end.
 Definition render_argv (j : list item) : list bstr := flat_map argv_of_item j.
 
@@ -98,6 +112,7 @@ Definition json_of_item (it : item) : bstr * jjv :=
   | IOut f => (B"outputFile", JJStr f)
   | IEmpty => (B"empty", JJStr [])
   | IReplace => (B"replaceInput", JJStr [])
+  | IGlobal l => (B"global", JJObj (map (fun p => (camel (ae_flag (fst p)), JJStr (snd p))) l))
   end.
 Definition render_json (j : list item) : jjv := JJObj (map json_of_item j).
 
@@ -138,10 +153,16 @@ Fixpoint wf_pos (j : list item) (gi go : bool) : bool :=
   | it :: r => pos_ok it gi go && wf_pos r (fst (pos_next it gi go)) (snd (pos_next it gi go))
   end.
 
+(* an option of the named nested table that is bound to a Config method *)
+Definition sub_opt (table : bstr) (e : aentry) : bool :=
+  bstr_eqb (ae_table e) table && is_config (ae_target e) &&
+  match ae_kind e with KBare | KParam | KOptParam | KChoices | KOptChoices => true | _ => false end.
+
 Definition wf_item (tbl : list aentry) (it : item) : Prop :=
   match it with
   | IOpt e v => In e tbl /\ main_scalar e = true
   | IArr e vs => In e tbl /\ main_array e = true
+  | IGlobal l => Forall (fun p => In (fst p) tbl /\ sub_opt B"global" (fst p) = true) l
   | _ => True
   end.
 
